@@ -1082,16 +1082,63 @@ def validate_qsub(ctx: Ctx):
             prev = best[3]
         return mode, body
 
+    # user ops whose NAME collides with a library op: same local name in another namespace (a fresh one, a namespace
+    # that is a child called "std", the DEFAULT namespace that opsub() uses), with or without parameters of the
+    # namesake's shape.  Namespaces exist so that such ops are unrelated to the library's; the inverse must be the
+    # inverse of the USER's definition
+    STD_NAMES = ["Identity", "H", "X", "Y", "Z", "S", "Sdag", "SqrtX", "SqrtXdag", "SqrtY", "SqrtYdag", "T", "Tdag", "RX", "RY", "RZ", "Phase",
+                 "CNOT", "CZ", "SWAP", "Toffoli", "Controlled", "MultiControlled", "Inverse", "Pauli", "PauliRotation", "M", "Label"]
+    try:
+        from quri_parts.qsub.namespace import DEFAULT as DEFAULT_NS
+    except ImportError:
+        DEFAULT_NS = NameSpace("__default__")
+    default_defs: dict = {}
+
+    def user_op(nq, sub_obj, txt, udef):
+        """register the body under a fresh name or under a colliding one; returns (text, op, matrix of the definition)"""
+        counter[0] += 1
+        if rng.random() < 0.4:
+            f = Op(Ident(ns, f"F{counter[0]}"), nq)
+            default_repository().register_sub(f, sub_obj)
+            ctx.count("qsub_user_name", "fresh")
+            return txt, f, udef
+        nm = rng.choice(STD_NAMES)
+        pk = "none"
+        if nm in ("RX", "RY", "RZ", "Phase") and rng.random() < 0.7:
+            pk = "float"
+        elif nm in ("Controlled", "MultiControlled", "Inverse") and rng.random() < 0.7:
+            pk = "op"
+        pol = rng.choice(["own", "child-named-std", "default"])
+        if pol == "default" and nm in default_defs:  # one definition per (namespace, name): the repository keys on it
+            ctx.count("qsub_user_name", "collides:default(reused)")
+            return default_defs[nm]
+        nsx = {"own": NameSpace(f"c12u{os.getpid()}_{counter[0]}"), "child-named-std": NameSpace("std", NameSpace(f"c12p{os.getpid()}_{counter[0]}")),
+               "default": DEFAULT_NS}[pol]
+        params = ()
+        if pk == "float":
+            params = (float(rng.choice([0.3, 1.0, -2.5, math.pi / 2, rng.uniform(-7, 7)])),)
+        elif pk == "op":
+            params = (std.H, 1, 1) if nm == "MultiControlled" else (rng.choice([std.H, std.S, std.RZ(0.4)]),)
+        f = Op(Ident(nsx, nm, params), nq)
+        default_repository().register_sub(f, sub_obj)
+        ctx.count("qsub_user_name", "collides:" + pol)
+        ctx.count("qsub_user_collision", nm)
+        out = (f"<user op {nsx}:{nm}{list(map(str, params)) if params else ''} := {txt}>", f, udef)
+        if pol == "default":
+            default_defs[nm] = out
+        return out
+
     def structured(maxq):
         nq = rng.randint(1, maxq)
         mode, body = structured_body(nq)
         b = SubBuilder(nq)
-        for t, o, qs, _ in body:
+        udef = np.eye(1 << nq, dtype=complex)
+        for t, o, qs, full in body:
             b.add_op(o, tuple(b.qubits[q] for q in qs))
-        counter[0] += 1
-        f = Op(Ident(ns, f"F{counter[0]}"), nq)
-        default_repository().register_sub(f, b.build())
+            udef = full @ udef
         txt = f"Sub[{nq}: " + "; ".join(f"{t}@{qs}" for t, _, qs, _ in body) + "]"
+        txt, f, udef = user_op(nq, b.build(), txt, udef)
+        nq = f.qubit_count
         w = rng.choice(["plain", "plain", "nested", "nested-only", "controlled", "multicontrolled", "inverse", "controlled-nested"])
         if w in ("nested", "nested-only", "controlled-nested"):
             # F as a constituent of another sub-routine (its own flag is not self_inverse, so the outer inverse wraps it)
@@ -1126,13 +1173,14 @@ def validate_qsub(ctx: Ctx):
             txt, f = f"Inverse({txt})", std.Inverse(f)
         ctx.count("qsub_structured", mode)
         ctx.count("qsub_structured_wrapper", w)
-        return txt, f
+        return txt, f, (udef if w == "plain" else None)
 
     n_random = ctx.n(300, 3000)
     n_struct = ctx.n(350, 3500)
     for it in range(n_random + n_struct):
+        udef = None
         if it >= n_random:
-            s, o = structured(3 if rng.random() < 0.8 else 2)
+            s, o, udef = structured(3 if rng.random() < 0.8 else 2)
         else:
             s, o = term(rng.choice([0, 1, 1, 2, 2, 3]), 3) if it else ("Identity", std.Identity)
         nq = o.qubit_count
@@ -1161,6 +1209,21 @@ def validate_qsub(ctx: Ctx):
         dist = dense.phase_dist(u[:d, :d], np.eye(d))
         if leak > 1e-7 or dist > 1e-7:
             ctx.witness("qsub-inverse", f"{order} differs from the identity by {dist:.3g} (auxiliary leakage {leak:.3g})", inp)
+            continue
+        if udef is not None:
+            # Inverse(op) on its own against the conjugate transpose of the op's DEFINITION (independent of how `op` compiles)
+            try:
+                ci = compiled([inv], nq)
+                n2 = max(ci.qubit_count, nq)
+                if n2 > 8:
+                    continue
+                ui = dense.circuit_unitary(n2, ci.gates)
+            except Exception as e:  # noqa: BLE001
+                ctx.witness("qsub-inverse", f"compiling Inverse(op) alone raises {type(e).__name__}: {str(e)[:120]}", inp)
+                continue
+            dist = dense.phase_dist(ui[:d, :d], udef.conj().T)
+            if dist > 1e-7:
+                ctx.witness("qsub-inverse", f"Inverse(op) differs from the conjugate transpose of the op's own definition by {dist:.3g}", inp)
 
 
 def run(ctx: Ctx, replay=None) -> int:
